@@ -133,6 +133,8 @@ pub struct Inner {
     features: Features,
     brain: RwLock<Brain>,
     log: Mutex<Vec<LogEntry>>,
+    /// long soak tests that never read the log switch it off (it would grow without bound)
+    log_enabled: std::sync::atomic::AtomicBool,
     seq: AtomicU64,
     conn_ids: AtomicU64,
     conns: Mutex<HashMap<u64, ConnHandle>>,
@@ -217,6 +219,7 @@ impl MockCluster {
                 features,
                 brain: RwLock::new(default_brain()),
                 log: Mutex::new(vec![]),
+                log_enabled: std::sync::atomic::AtomicBool::new(true),
                 seq: AtomicU64::new(0),
                 conn_ids: AtomicU64::new(0),
                 conns: Mutex::new(HashMap::new()),
@@ -251,6 +254,11 @@ impl MockCluster {
     pub fn node_addr(&self, node: usize) -> SocketAddr {
         let n = &self.inner.nodes.read().unwrap()[node];
         SocketAddr::new(node_ip(n).into(), self.inner.port)
+    }
+
+    /// Keeps only connection open/close events in the log from now on.
+    pub fn set_frame_logging(&self, on: bool) {
+        self.inner.log_enabled.store(on, Ordering::Relaxed);
     }
 
     pub fn set_brain(&self, b: Brain) {
@@ -388,7 +396,9 @@ async fn accept_loop(inner: Arc<Inner>, node: usize, listener: TcpListener, shar
 }
 
 fn log_push(inner: &Inner, e: LogEntry) {
-    inner.log.lock().unwrap().push(e);
+    if inner.log_enabled.load(Ordering::Relaxed) || matches!(e.kind, LogKind::ConnOpened | LogKind::ConnClosed) {
+        inner.log.lock().unwrap().push(e);
+    }
 }
 
 struct ConnState {
